@@ -110,6 +110,11 @@ def structural_update0(op, tree_tpl, parallel=False):
         return {'agents': {'_generate': [g]}}
     if o == 'div':
         tpl = tree_tpl[('agents', op['k'])]
+        if op.get('keyonly') and not parallel:
+            # daughters named by key only: they get copies of the mother's
+            # processes, steps, flow and topology
+            return {'agents': {'_divide': {'mother': op['k'],
+                                           'daughters': [{'key': op['d1']}, {'key': op['d2']}]}}}
         ds = []
         for d in (op['d1'], op['d2']):
             t = template(tpl, 0, parallel)
@@ -603,6 +608,8 @@ def random_history(rng, length, initial_model, **kw):
         op['mode'] = 'proc' if op['op'] in ('addex', 'none') else rng.choice(['proc', 'step'])
         if op['op'] not in ('addex', 'none') and rng.random() < 0.35:
             op['noise'] = rng.choice([1, 2])
+        if op['op'] == 'div' and rng.random() < 0.5:
+            op['keyonly'] = True
         ops.append(op)
         if op['op'] == 'addex':
             break
